@@ -316,6 +316,10 @@ def run(rep, ctx):
         _c20.r20_4(rep, M, E, "R11.6")
         _c20.r20_7(rep, M, "R11.6")
         _c20.r20_units(rep, M, "R11.6")
+    rep.rule("R11.7", "ids, letters and multiplicities of the 2D result come out of the same normal-form machinery as in 3D (ranking order, id slice, set assembly, index spaces; shared with C06/C07)")
+    with rep.guard("R11.7"):
+        from . import shared as _sh
+        _sh.normal_form(rep, ctx.model, "R11.7")
     rep.floor("R11.6", 12)
     rep.floor("R11.1", 7)
     rep.floor("R11.2", 2)
